@@ -5,6 +5,7 @@ import (
 	"fmt"
 	"math"
 	"reflect"
+	"strings"
 
 	flyt "github.com/mark3labs/flyt"
 
@@ -339,8 +340,92 @@ func genBindPair(c *Cfg, i int, seed int64) (any, func() any, string) {
 	return v, d.mk, d.name
 }
 
+// checkStoreBindNow: SharedStore.Bind on key must give what the reference gives for the value stored NOW.
+func checkStoreBindNow(s *flyt.SharedStore, key string, v any, d namedDest) (string, string) {
+	if v == nil {
+		return "", ""
+	}
+	refDest := d.mk()
+	wantErr := false
+	switch {
+	case !validDest(refDest):
+		wantErr = true
+	case reflect.TypeOf(v) == reflect.TypeOf(refDest).Elem():
+		reflect.ValueOf(refDest).Elem().Set(reflect.ValueOf(v))
+	default:
+		b, err := json.Marshal(v)
+		if err != nil {
+			wantErr = true
+		} else if err := json.Unmarshal(b, refDest); err != nil {
+			wantErr = true
+		}
+	}
+	dest := d.mk()
+	var err error
+	if p, msg := call(func() { err = s.Bind(key, dest) }); p {
+		return "stateful-panic", msg
+	}
+	if (err != nil) != wantErr {
+		return "stateful-bind-error", fmt.Sprintf("SharedStore.Bind(%q, %s) error=%v, the JSON round trip of the value stored now (%T) gives error=%v", key, d.name, err, v, wantErr)
+	}
+	if validDest(dest) && validDest(refDest) && !deepEq(reflect.ValueOf(dest).Elem(), reflect.ValueOf(refDest).Elem(), 0) {
+		return "stateful-bind-stale", fmt.Sprintf("SharedStore.Bind(%q, %s) produced %s, the JSON round trip of the value stored now (%T) gives %s", key, d.name, zoo.Describe(reflect.ValueOf(dest).Elem().Interface()), v, zoo.Describe(reflect.ValueOf(refDest).Elem().Interface()))
+	}
+	var dr any = d.mk()
+	var er error
+	if p, _ := call(func() { er = flyt.NewResult(v).Bind(dr) }); !p && (er != nil) != (err != nil) {
+		return "stateful-store-vs-result", fmt.Sprintf("SharedStore.Bind(%q) error=%v but Result.Bind on the same value error=%v", key, err, er)
+	}
+	return "", ""
+}
+
+func statefulBindProbe(dests []namedDest) storeProbe {
+	return func(si int, st StoreStep, s *flyt.SharedStore, ref map[string]any) (string, string) {
+		for ki, k := range storeKeys {
+			v, ok := ref[k]
+			if !ok {
+				continue
+			}
+			for j := 0; j < 3; j++ {
+				d := dests[(si*7+ki*3+j*11)%len(dests)]
+				if fk, fd := checkStoreBindNow(s, k, v, d); fk != "" {
+					return fk, fmt.Sprintf("step %d (%s): %s", si, st.Op, fd)
+				}
+			}
+		}
+		return "", ""
+	}
+}
+
+func runC16Stateful(c *Cfg) {
+	r := c.Rep
+	n := c.Pick(800, 15000)
+	dests := bindDests()
+	parallel(c, n, func(i int) {
+		cs := genStoreCase(c, 2_000_000+i, 60)
+		rg := c.Rng("c16st", i)
+		for j := range cs.Steps {
+			if rg.IntN(5) == 0 {
+				cs.Steps[j].Op = "mutate-in-place"
+			}
+		}
+		key, detail, stats := runStoreCaseWith(cs, bindValues(), statefulBindProbe(dests))
+		r.Eval()
+		r.Count("stateful.sequences", 1)
+		r.Count("stateful.steps", int64(stats["steps"]))
+		r.Count("stateful.in_place_mutations", int64(stats["in_place_mutations"]))
+		if key != "" && strings.HasPrefix(key, "stateful") {
+			cs.Family = "stateful"
+			r.Violate("C16", "C16:"+key, detail, cs)
+		}
+		b, _ := json.Marshal(cs.Steps)
+		r.Nontrivial("st:" + string(b))
+	})
+}
+
 func runC16(c *Cfg) {
 	r := c.Rep
+	runC16Stateful(c)
 	vals := append(bindValues(), zoo.Fixed()...)
 	dests := bindDests()
 	type pair struct{ vi, di int }
@@ -387,6 +472,19 @@ func runC16(c *Cfg) {
 }
 
 func replayC16(c *Cfg, spec json.RawMessage) {
+	var probeFam struct {
+		Family string `json:"family"`
+	}
+	if json.Unmarshal(spec, &probeFam) == nil && probeFam.Family == "stateful" {
+		var cs StoreCase
+		_ = json.Unmarshal(spec, &cs)
+		key, detail, _ := runStoreCaseWith(&cs, bindValues(), statefulBindProbe(bindDests()))
+		if key != "" {
+			fmt.Printf(" * finding %s: %s\n", key, detail)
+			c.Rep.Violate("C16", "C16:"+key, detail, cs)
+		}
+		return
+	}
 	var bc BindCase
 	if err := json.Unmarshal(spec, &bc); err != nil {
 		fmt.Println("cannot parse:", err)
